@@ -542,6 +542,10 @@ class Bench:
             self.judge(status, out, key, crash_prop='C07' if form not in ('c>c',) else 'C03',
                        known=known.get('id') if known and known.get('skip_judge') else None)
         rec = {'form': form, 'status': status, 'out': out[0], 'margin_rel': float(plan.get('margin_rel', 1))}
+        if out[0] != 'ok' and form != 'c>c' and status == 'must_accept' and not overlap and not (known and known.get('skip_judge')):
+            if self.reference_transfer_ok(s, d, form, q):
+                self.V('C07', 'plate_op_refused', key + (out[0],),
+                       f"the plate operation raised {out[0]} ({out[1]}) although the same transfers well by well through Container.transfer all succeed")
         if out[0] != 'ok':
             if status == 'must_refuse' or status == 'must_reject':
                 self.stats['probe:refused_infeasible'] += 1
@@ -647,6 +651,37 @@ class Bench:
                     return
 
     # ---- differential oracle for C07 (real container-level code as the reference)
+    def reference_transfer_ok(self, s, d, form, q):
+        """Do the per-well container-level transfers (real code, free-standing copies) all succeed?"""
+        rep = self.rep
+        from copy import deepcopy
+        CT = rep.Container.transfer
+        try:
+            if form == 'c>N':
+                src = s.base
+                for cell in d.cells:
+                    src, _ = CT(src, deepcopy(d.base.wells[cell]), q)
+            elif form == 'N>c':
+                dst = d.base
+                for cell in s.cells:
+                    _, dst = CT(deepcopy(s.base.wells[cell]), dst, q)
+            elif form == '1>N':
+                src = deepcopy(s.base.wells[s.cells[0]])
+                for cell in d.cells:
+                    src, _ = CT(src, deepcopy(d.base.wells[cell]), q)
+            elif form == 'N>1':
+                dst = deepcopy(d.base.wells[d.cells[0]])
+                for cell in s.cells:
+                    _, dst = CT(deepcopy(s.base.wells[cell]), dst, q)
+            elif form == 'N>N':
+                for cs, cd in zip(s.cells, d.cells):
+                    CT(deepcopy(s.base.wells[cs]), deepcopy(d.base.wells[cd]), q)
+            else:
+                return False
+        except Exception:
+            return False
+        return True
+
     def differential_transfer(self, ev, s, d, rs, rd, form, key, q, known):
         rep = self.rep
         from copy import deepcopy
@@ -849,6 +884,12 @@ class Bench:
                                                W.msubs[solvent].kind))
         if not (known and known.get('skip_judge')):
             self.judge(status, out, key, crash_prop='C11', also='C11')
+        if out[0] != 'ok' and t.kind == 'plate' and status == 'must_accept':
+            from copy import deepcopy
+            refs = [self.call(lambda c=cell: deepcopy(t.base.wells[c]).fill_to(W.rsubs[solvent], q)) for cell in cells]
+            if all(r[0] == 'ok' for r in refs):
+                self.V('C07', 'plate_op_refused', key + (out[0],),
+                       f"fill_to on the plate raised {out[0]} ({out[1]}) although Container.fill_to succeeds on every addressed well")
         if out[0] != 'ok':
             if status == 'must_refuse':
                 self.stats['probe:refused_infeasible'] += 1
@@ -1022,7 +1063,7 @@ class Bench:
             W.add(ev['name'], res)
             named = [(ev['name'], res)]
         self.n_ok_state += 1
-        self.after_result(ev, named, key, builder=True)
+        self.after_result(ev, named, key, builder=True, solvent_pre=sop.base if sop is not None else None)
         return {'out': 'ok'}
 
     def check_conservation_builder(self, key, before, resid, sol, ev):
